@@ -628,7 +628,7 @@ Theorem frame_roundtrip cap p :
   cap_ok cap (length p) ->
   exists d', run cap init (frame p) =
                (d', map (fun _ => (ONone, [])) (removelast (frame p)) ++ [(OMsg, p)]) /\
-             st d' = Done.
+             st d' = Done /\ rev (rbuf d') = p.
 Proof.
   intros Hcap.
   set (body := enc_from 0 p).
@@ -697,7 +697,7 @@ Proof.
         * exists d6, d'. split; [|repeat split; assumption].
           cbn [repeat app feed]. rewrite S2. rewrite (feed_app cap _ _ d2 d3 F3). exact F6. }
   destruct Tail as (d6 & d' & F6 & S6 & Hd & Hr).
-  exists d'. split; [|exact Hd].
+  exists d'. split; [|split; [exact Hd|exact Hr]].
   assert (Ffull : feed cap init (start_seq ++ body ++ repeat 0 pad ++ [27;27;27;27;26; N.of_nat pad; cl]) = Some d6).
   { rewrite (feed_app cap _ _ init d0 (feed_start cap)).
     rewrite (feed_app cap _ _ d0 d1 F1). exact F6. }
